@@ -6,6 +6,7 @@ import (
 	"strconv"
 
 	"github.com/goose-lang/goose/internal/coq"
+	"golang.org/x/tools/go/packages"
 )
 
 // Shared kernel harness for C04 / C06 / C07: the real Ctx.Decls (+ declsOrError, depTracker,
@@ -317,4 +318,53 @@ func verifC06SortedFilesSym() {
 	verifAssert("determinism/input-order-irrelevant", o1[0].Path == o2[0].Path && o1[1].Path == o2[1].Path && o1[0].Ast == o2[0].Ast)
 	verifAssert("determinism/ascending", o1[0].Path < o1[1].Path)
 	verifCover("c06/sortedfiles-sym")
+}
+
+// C06 (ii): the real TranslatePackages workers (goroutine per package, wait group) run under the
+// scheduler with a happens-before race check; packages.Load is replaced by a stub that returns
+// minimal packages, so translatePackage → NewPkgCtx → getFfi → sortedFiles → Decls → ffiHeaderFooter
+// really run in each worker.
+var verifLoadPkgs []*packages.Package
+
+func verifStubLoad(cfg *packages.Config, patterns ...string) ([]*packages.Package, error) {
+	return verifLoadPkgs, nil
+}
+
+func verifMiniPkg(path string, broken bool) *packages.Package {
+	p := &packages.Package{ID: path, PkgPath: path, Name: "p", Fset: token.NewFileSet(), Imports: map[string]*packages.Package{}}
+	if broken {
+		p.Errors = []packages.Error{{Msg: "type error in " + path}}
+	}
+	return p
+}
+
+func verifC06Workers() {
+	n := 2 + verifChoose(2)
+	verifLoadPkgs = nil
+	paths := []string{"example.com/a", "example.com/b", "example.com/c"}
+	for i := 0; i < n; i++ {
+		verifLoadPkgs = append(verifLoadPkgs, verifMiniPkg(paths[i], verifChoose(2) == 1))
+	}
+	tr := TranslationConfig{}
+	// sequential reference results
+	var wantFiles []coq.File
+	var wantErr []bool
+	for _, p := range verifLoadPkgs {
+		f, err := tr.translatePackage(p)
+		wantFiles = append(wantFiles, f)
+		wantErr = append(wantErr, err != nil)
+	}
+	verifRaceDetect(true)
+	files, errs, perr := tr.TranslatePackages(".", "./...")
+	verifRaceDetect(false)
+	verifAssert("workers/no-data-race", verifRaces() == 0)
+	verifAssert("workers/no-pattern-error", perr == nil)
+	verifAssert("workers/one-slot-per-package", len(files) == n && len(errs) == n)
+	if len(files) == n && len(errs) == n {
+		for i := 0; i < n; i++ {
+			verifAssert("workers/error-belongs-to-its-package", (errs[i] != nil) == wantErr[i])
+			verifAssert("workers/result-independent-of-schedule", files[i].PkgPath == wantFiles[i].PkgPath && files[i].ImportHeader == wantFiles[i].ImportHeader)
+		}
+	}
+	verifCover("c06/workers")
 }
